@@ -142,7 +142,8 @@ def method_init():
                             "searchData": "ref:SearchData"},
                     result="none", modifies=["obj(self)", "searchData.solution.solutionAccuracy"],
                     setup=["task.problem.numberOfObjectives = 1", "task.problem.numberOfConstraints = 0"],
-                    requires=["task.problem.numberOfObjectives == 1 and task.problem.numberOfConstraints == 0",
+                    requires=["task.problem is not None",
+                              "task.problem.numberOfObjectives == 1 and task.problem.numberOfConstraints == 0",
                               "searchData is not None and searchData.solution is not None"],
                     ensures=["self.stop == False and self.recalc == True and self.iterationsCount == 0 and self.best is None",
                              "self.parameters is parameters and self.task is task and self.evolvent is evolvent and "
